@@ -13,3 +13,13 @@ def fire(*args, **kwargs):
         with open(_path, "a") as f:
             f.write("called vcanary_cold.fire\n")
     return "fired"
+
+
+def handler(**kwargs):
+    """A logging handler factory (`(): vcanary_cold.handler` in a logging section)."""
+    import logging
+
+    if _path:
+        with open(_path, "a") as f:
+            f.write("called vcanary_cold.handler\n")
+    return logging.NullHandler()
